@@ -67,11 +67,15 @@ Definition gabs_fields := fix fields (fs : list cqltype) (ss : list gsrc) {struc
 Definition gabs_fields_of (fs : list cqltype) (srcs : option (list gsrc)) : option (list cval) :=
   match srcs with None => None | Some ss => gabs_fields fs ss end.
 
+Ltac fin := first [reflexivity | (cbn; match goal with |- context [is_string_ty ?k] => destruct (is_string_ty k); reflexivity end)].
 Ltac cs src :=
-  let gt := fresh "gt" in let g := fresh "g" in
-  destruct src as [[gt g]|]; [|reflexivity]; destruct gt; destruct g; try reflexivity;
-  repeat match goal with x : gty |- _ => destruct x; try reflexivity end;
-  repeat match goal with x : gval |- _ => destruct x; try reflexivity end.
+  let gt := fresh "gt" in let g := fresh "g" in let t0 := fresh "t0" in let p := fresh "p" in
+  destruct src as [[gt g]|]; [|reflexivity];
+  destruct gt as [? ?|t0|?|? ?|? ?|?|];
+  [ destruct g; fin
+  | destruct g as [?| |p|?|?|?| |?|?| |? ?]; try reflexivity;
+    [ destruct t0; fin | destruct t0; destruct p; fin ]
+  | destruct g; fin | destruct g; fin | destruct g; fin | destruct g; fin | destruct g; fin ].
 
 Lemma g_encode_list v e src : g_encode v (TList e) src =
   match as_seq src with
@@ -125,3 +129,549 @@ Proof. unfold as_tuple. cs src. Qed.
 Lemma gabs_udt names fs src : gabs (TUdt names fs) src =
   match as_udt names (List.length fs) src with XErr => None | XNil => Some VNull | XOk srcs => some_if (gabs_fields_of fs srcs) VUdt end.
 Proof. unfold as_udt. cs src. Qed.
+
+(* ------------------------------------------------------------------------------------------------ Encode from a representation *)
+Lemma omap_cons {A B} (f : A -> option B) a l r : omap f (a :: l) = Some r -> exists b r', f a = Some b /\ omap f l = Some r' /\ r = b :: r'.
+Proof.
+  cbn. destruct (f a) as [b|]; [|discriminate]. fold (omap f l). destruct (omap f l) as [r'|]; [|discriminate].
+  intro H. injection H as <-. eauto.
+Qed.
+Lemma omap_length {A B} (f : A -> option B) l : forall r, omap f l = Some r -> zlen r = zlen l.
+Proof.
+  induction l as [|a l IH]; intros r H.
+  - cbn in H. injection H as <-. reflexivity.
+  - apply omap_cons in H. destruct H as (b & r' & _ & Hr & ->). rewrite !zlen_cons, (IH r' Hr). reflexivity.
+Qed.
+
+Lemma enc_elems_g_omap {A} v (f : A -> option cval) (encg : A -> outcome (option bytes)) (enc : cval -> outcome (option bytes)) :
+  (forall a x, f a = Some x -> encg a = enc x) ->
+  forall l xs, omap f l = Some xs -> enc_elems_g v encg l = enc_elems v enc xs.
+Proof.
+  intros Hf l. induction l as [|a l IH]; intros xs H.
+  - cbn in H. injection H as <-. reflexivity.
+  - apply omap_cons in H. destruct H as (b & r' & Ha & Hr & ->). cbn [enc_elems_g enc_elems].
+    rewrite (Hf a b Ha), (IH r' Hr). reflexivity.
+Qed.
+
+Lemma some_if_some {A} (o : option A) f x : some_if o f = Some x -> exists a, o = Some a /\ x = f a.
+Proof. destruct o; cbn; intro H; [injection H as <-; eauto|discriminate]. Qed.
+
+Definition EA (v : Z) (t : cqltype) : Prop := forall src x, gabs t src = Some x -> g_encode v t src = m_encode v t x.
+
+Lemma ea_fields v fs : Forall (EA v) fs -> forall ss xs, gabs_fields fs ss = Some xs -> g_enc_fields v fs ss = enc_fields (m_encode v) fs xs.
+Proof.
+  intro H. induction H as [|f fs' Hf Hfs IH]; intros ss xs Hx.
+  - destruct ss; cbn in Hx; injection Hx as <-; reflexivity.
+  - destruct ss as [|s ss']; [discriminate|]. cbn [gabs_fields] in Hx.
+    destruct (gabs f s) as [x|] eqn:Ex; [|discriminate]. destruct (gabs_fields fs' ss') as [r|] eqn:Er; [|discriminate].
+    injection Hx as <-. cbn [g_enc_fields enc_fields]. rewrite (Hf s x Ex), (IH ss' r Er). reflexivity.
+Qed.
+
+Theorem g_encode_abs v t : forall src x, gabs t src = Some x -> g_encode v t src = m_encode v t x.
+Proof.
+  change (EA v t). induction t using cqltype_ind2; intros src x Hx.
+  - (* scalar *)
+    rewrite m_encode_scalar. destruct src as [[gt g]|]; [|cbn in Hx; injection Hx as <-; reflexivity].
+    destruct gt as [s0 k|t0|?|? ?|? ?|?|]; try discriminate Hx.
+    + destruct g; try discriminate Hx. cbn in Hx |- *. destruct (scalar_eqb s s0); [|discriminate]. injection Hx as <-. reflexivity.
+    + destruct t0; try discriminate Hx. destruct g as [?| |p|?|?|?| |?|?| |? ?]; try discriminate Hx.
+      * cbn in Hx |- *. destruct (scalar_eqb s s0); [|discriminate]. injection Hx as <-. reflexivity.
+      * destruct p; try discriminate Hx. cbn in Hx |- *. destruct (scalar_eqb s s0); [|discriminate]. injection Hx as <-. reflexivity.
+  - (* list *)
+    rewrite gabs_list in Hx. rewrite g_encode_list. destruct (as_seq src) as [| |[et es]]; [discriminate|injection Hx as <-; reflexivity|].
+    apply some_if_some in Hx. destruct Hx as (xs & Hxs & ->).
+    change (m_encode v (TList t) (VList xs)) with (c <-! writeCollectionSize v (zlen xs); b <-! enc_elems v (m_encode v t) xs; OK (Some (c ++ b))).
+    rewrite (omap_length _ _ _ Hxs).
+    rewrite (enc_elems_g_omap v (fun g => gabs t (elem_src et g)) _ (m_encode v t) (fun a y => IHt (elem_src et a) y) es xs Hxs). reflexivity.
+  - (* set *)
+    rewrite gabs_set in Hx. rewrite g_encode_set. destruct (as_seq src) as [| |[et es]]; [discriminate|injection Hx as <-; reflexivity|].
+    apply some_if_some in Hx. destruct Hx as (xs & Hxs & ->).
+    change (m_encode v (TSet t) (VList xs)) with (c <-! writeCollectionSize v (zlen xs); b <-! enc_elems v (m_encode v t) xs; OK (Some (c ++ b))).
+    rewrite (omap_length _ _ _ Hxs).
+    rewrite (enc_elems_g_omap v (fun g => gabs t (elem_src et g)) _ (m_encode v t) (fun a y => IHt (elem_src et a) y) es xs Hxs). reflexivity.
+  - (* map *)
+    rewrite gabs_map in Hx. rewrite g_encode_map. destruct (as_kv src) as [| |[[kt vt] kvs]]; [discriminate|injection Hx as <-; reflexivity|].
+    apply some_if_some in Hx. destruct Hx as (ps & Hps & ->).
+    change (m_encode v (TMap t1 t2) (VMap ps)) with
+      (c <-! writeCollectionSize v (zlen ps); b <-! enc_entries v (m_encode v t1) (m_encode v t2) ps; OK (Some (c ++ b))).
+    rewrite (omap_length _ _ _ Hps). f_equal.
+    assert (E: enc_entries_g v (fun kk => g_encode v t1 (elem_src kt kk))
+                 (fun kw => g_encode v t2 (if key_findable kt (fst kw) then elem_src vt (snd kw) else None))
+                 (map (fun kw => (fst kw, kw)) kvs) = enc_entries v (m_encode v t1) (m_encode v t2) ps).
+    { clear -IHt1 IHt2 Hps. revert ps Hps. induction kvs as [|[kk ww] r IHr]; intros ps Hps.
+      - cbn in Hps. injection Hps as <-. reflexivity.
+      - apply omap_cons in Hps. destruct Hps as (b & r' & Ha & Hr & ->). cbn [fst snd] in Ha.
+        destruct (gabs t1 (elem_src kt kk)) as [a|] eqn:Ea; [|discriminate].
+        destruct (gabs t2 (if key_findable kt kk then elem_src vt ww else None)) as [c|] eqn:Ec; [|discriminate].
+        injection Ha as <-. cbn [map enc_entries_g enc_entries fst snd].
+        rewrite (IHt1 _ _ Ea), (IHt2 _ _ Ec), (IHr r' Hr). reflexivity. }
+    rewrite E. reflexivity.
+  - (* tuple *)
+    rewrite gabs_tuple in Hx. rewrite g_encode_tuple. destruct (as_tuple (List.length fs) src) as [| |srcs]; [discriminate|injection Hx as <-; reflexivity|].
+    apply some_if_some in Hx. destruct Hx as (xs & Hxs & ->). destruct srcs as [ss|]; [|discriminate]. cbn [gabs_fields_of] in Hxs.
+    rewrite m_encode_tuple. cbn [g_fields_of]. rewrite (ea_fields v fs H ss xs Hxs). reflexivity.
+  - (* udt *)
+    rewrite gabs_udt in Hx. rewrite g_encode_udt. destruct (as_udt names (List.length fs) src) as [| |srcs]; [discriminate|injection Hx as <-; reflexivity|].
+    apply some_if_some in Hx. destruct Hx as (xs & Hxs & ->). destruct srcs as [ss|]; [|discriminate]. cbn [gabs_fields_of] in Hxs.
+    rewrite m_encode_udt. cbn [g_fields_of]. rewrite (ea_fields v fs H ss xs Hxs). reflexivity.
+Qed.
+
+(* ------------------------------------------------------------------------------------------------ C14 at the representation level *)
+(* the Go kinds the codec of a CQL type accepts (createExtractor / createInjector kind switches; leaf types of the scalar's codec) *)
+Definition accepts (t : cqltype) (gt : gty) : bool :=
+  match t, gt with
+  | TScalar s, GLeaf s' _ => scalar_eqb s s'
+  | TList _, GSlice _ | TList _, GArray _ _ | TSet _, GSlice _ | TSet _, GArray _ _ => true
+  | TMap _ _, GMap _ _ => true
+  | TTuple _, GStruct _ | TTuple _, GSlice _ | TTuple _, GArray _ _ => true
+  | TUdt _ _, GStruct _ | TUdt _ _, GSlice _ | TUdt _ _, GArray _ _ | TUdt _ _, GMap _ _ => true
+  | _, _ => false
+  end.
+Definition accepts_dest (t : cqltype) (gt : gty) : bool := match gt with GIface => true | _ => accepts t gt end.
+
+(* every nil a modelled source type has: untyped nil, nil pointer, nil slice, nil map, pointer to a nil slice / map, nil slice-kind leaf *)
+Definition nil_forms (gt : gty) : list gsrc :=
+  [None; Some (GPtr gt, GVNilPtr)] ++
+  match gt with
+  | GSlice _ => [Some (gt, GVNilSlice); Some (GPtr gt, GVPtr GVNilSlice)]
+  | GMap _ _ => [Some (gt, GVNilMap); Some (GPtr gt, GVPtr GVNilMap)]
+  | GLeaf _ LSlice => [Some (gt, GVLeaf VNull); Some (GPtr gt, GVPtr (GVLeaf VNull))]
+  | _ => []
+  end.
+
+Theorem nil_sources_encode_null v t gt : accepts t gt = true -> Forall (fun src => g_encode v t src = OK None) (nil_forms gt).
+Proof.
+  intro H. destruct t; destruct gt; try discriminate H; unfold nil_forms; cbn [app];
+    repeat (constructor; try reflexivity);
+    try (cbn in H |- *; rewrite H; try reflexivity).
+  all: try (destruct k; repeat (constructor; try reflexivity); cbn in H |- *; rewrite H; reflexivity).
+Qed.
+
+Lemma scalar_eqb_refl s : scalar_eqb s s = true. Proof. destruct s; reflexivity. Qed.
+
+Theorem null_into_prefilled v t gt d : accepts_dest t gt = true -> g_decode v t gt d None = OK (true, gzero gt).
+Proof.
+  intro H. unfold g_decode. destruct t; destruct gt; try discriminate H; try reflexivity.
+  - cbn in H |- *. rewrite H, dec_scalar_none. reflexivity.
+  - cbn. rewrite dec_scalar_none. reflexivity.
+Qed.
+
+Theorem empty_into_prefilled v t gt d : accepts_dest t gt = true -> string_type t = false -> g_decode v t gt d (Some []) = OK (true, gzero gt).
+Proof.
+  intros H Hs. unfold g_decode. destruct t; destruct gt; try discriminate H; try reflexivity.
+  - cbn in H |- *. rewrite H, dec_scalar_empty. cbn in Hs. rewrite Hs. reflexivity.
+  - cbn. rewrite dec_scalar_empty. cbn in Hs. rewrite Hs. reflexivity.
+Qed.
+
+(* ------------------------------------------------------------------------------------------------ Decode into a representation *)
+Definition isnull (x : cval) : bool := match x with VNull => true | _ => false end.
+(* static types whose zero value denotes NULL *)
+Definition nilable (t : gty) : bool := match t with GSlice _ | GMap _ _ | GIface | GLeaf _ LSlice => true | _ => false end.
+
+(* [fits t gt x]: the non-null abstract value x of CQL type t can be held by a destination variable of Go type gt, for the
+   destination kinds covered by the decode theorem below: every scalar leaf, slices, arrays, []interface{} / interface{} (preferred
+   types), structs and slices / arrays for tuples, slices / arrays for UDTs.  Not covered here (correspondence run only): map destinations, UDT into struct-by-name or map[string]V. *)
+Definition fits_el (e : cqltype) (fit : gty -> cval -> Prop) (et : gty) (x : cval) : Prop :=
+  match et with
+  | GPtr t' => if isnull x then accepts e t' = true else (accepts e t' = true /\ fit t' x)
+  | _ => if isnull x then (nilable et = true /\ accepts_dest e et = true) else fit et x
+  end.
+
+Fixpoint fits (t : cqltype) (gt : gty) (x : cval) {struct t} : Prop :=
+  let fits_fields (fs : list cqltype) (ets : list gty) (xs : list cval) : Prop :=
+    (fix go (fs : list cqltype) (ets : list gty) (xs : list cval) {struct fs} : Prop :=
+       match fs, ets, xs with
+       | [], _, [] => True
+       | f :: fs', et :: ets', x :: xs' => fits_el f (fits f) et x /\ go fs' ets' xs'
+       | _, _, _ => False
+       end) fs ets xs in
+  match t with
+  | TScalar s =>
+      match x with VList _ | VMap _ | VTuple _ | VUdt _ | VNull => False | _ => True end /\
+      match gt with GLeaf s' _ => scalar_eqb s s' = true | GIface => True | _ => False end
+  | TList e | TSet e =>
+      match x with
+      | VList xs =>
+          match gt with
+          | GSlice et => Forall (fits_el e (fits e) et) xs
+          | GArray n et => List.length xs = n /\ Forall (fits_el e (fits e) et) xs
+          | GIface => Forall (fits_el e (fits e) (ensure_nillable (pref e))) xs
+          | _ => False
+          end
+      | _ => False
+      end
+  | TMap _ _ => False                                                 (* map destinations: covered by the correspondence run only *)
+  | TTuple fs =>
+      match x with
+      | VTuple xs =>
+          match gt with
+          | GStruct sfs => fits_fields fs (field_types sfs) xs
+          | GSlice et => fits_fields fs (repeat et (List.length fs)) xs
+          | GArray m et => (List.length fs <= m)%nat /\ fits_fields fs (repeat et m) xs
+          | GIface => fits_fields fs (repeat GIface (List.length fs)) xs
+          | _ => False
+          end
+      | _ => False
+      end
+  | TUdt names fs =>
+      match x with
+      | VUdt xs =>
+          match gt with
+          | GSlice et => fits_fields fs (repeat et (List.length fs)) xs
+          | GArray m et => (List.length fs <= m)%nat /\ fits_fields fs (repeat et m) xs
+          | _ => False
+          end
+      | _ => False
+      end
+  end.
+
+
+(* named nested loops of dec_var *)
+Definition dec_fields_g (v : Z) (udt : bool) := fix go (fs : list cqltype) (ets : list gty) (src : bytes) {struct fs} : outcome (list gval * bytes) :=
+  match fs with
+  | [] => OK ([], src)
+  | f :: fs' =>
+      match ets with
+      | [] => ERR
+      | et :: ets' =>
+          e <-! (match udt, src with true, [] => OK (None, []) | _, _ => read_bytes src end);
+          y <-! dec_elem_with (dec_var v f) et (fst e);
+          rest <-! go fs' ets' (snd e); OK (y :: fst rest, snd rest)
+      end
+  end.
+Definition g_fields (v : Z) (udt : bool) (fs : list cqltype) (ets : list gty) (src : bytes) : outcome (list gval) :=
+  r <-! dec_fields_g v udt fs ets src; all_read r.
+Definition seq_body (v : Z) (e : cqltype) (et : gty) (src : option bytes) : outcome (Z * list gval) :=
+  r <-! readCollectionSize v (src_bytes src);
+  let (size, rest) := r in
+  if size <? 0 then ERR
+  else es <-! dec_elems_g v (dec_elem_with (dec_var v e) et) (S (List.length rest)) size rest; ys <-! all_read es; OK (size, ys).
+
+Lemma dec_var_list v e gt d src : dec_var v (TList e) gt d src =
+  let wasNull := src_len src =? 0 in
+  match gt with
+  | GSlice et => if wasNull then OK (true, GVNilSlice) else r <-! seq_body v e et src; OK (false, GVSlice (snd r))
+  | GArray n et => if wasNull then OK (true, gzero gt)
+                   else r <-! seq_body v e et src; if Z.of_nat n <? fst r then ERR else OK (false, GVArray (snd r ++ skipn (List.length (snd r)) (arr_elems d)))
+  | GIface => if wasNull then OK (true, GVNilIface)
+              else let et := ensure_nillable (pref e) in r <-! seq_body v e et src; OK (false, GVIface (GSlice et) (GVSlice (snd r)))
+  | _ => ERR
+  end.
+Proof. destruct gt; reflexivity. Qed.
+Lemma dec_var_set v e gt d src : dec_var v (TSet e) gt d src = dec_var v (TList e) gt d src.
+Proof. destruct gt; reflexivity. Qed.
+Lemma dec_var_tuple v fs gt d src : dec_var v (TTuple fs) gt d src =
+  let wasNull := src_len src =? 0 in let n := List.length fs in
+  match gt with
+  | GStruct sfs => if wasNull then OK (true, gzero gt)
+                   else ys <-! g_fields v false fs (field_types sfs) (src_bytes src); OK (false, GVStruct (ys ++ skipn n (arr_elems d)))
+  | GSlice et => if wasNull then OK (true, GVNilSlice) else ys <-! g_fields v false fs (repeat et n) (src_bytes src); OK (false, GVSlice ys)
+  | GArray m et => if wasNull then OK (true, gzero gt)
+                   else ys <-! g_fields v false fs (repeat et m) (src_bytes src); OK (false, GVArray (ys ++ skipn n (arr_elems d)))
+  | GIface => if wasNull then OK (true, GVNilIface)
+              else ys <-! g_fields v false fs (repeat GIface n) (src_bytes src); OK (false, GVIface (GSlice GIface) (GVSlice ys))
+  | _ => ERR
+  end.
+Proof. destruct gt; reflexivity. Qed.
+Lemma dec_var_udt_seq v names fs gt d src : dec_var v (TUdt names fs) gt d src =
+  let wasNull := src_len src =? 0 in let n := List.length fs in
+  match gt with
+  | GSlice et => if wasNull then OK (true, GVNilSlice) else ys <-! g_fields v true fs (repeat et n) (src_bytes src); OK (false, GVSlice ys)
+  | GArray m et => if wasNull then OK (true, gzero gt)
+                   else ys <-! g_fields v true fs (repeat et m) (src_bytes src); OK (false, GVArray (ys ++ skipn n (arr_elems d)))
+  | _ => dec_var v (TUdt names fs) gt d src
+  end.
+Proof. destruct gt; reflexivity. Qed.
+
+Ltac invb H := let a := fresh "a" in let Ha := fresh "Ha" in apply bindo_ok in H; destruct H as (a & Ha & H).
+
+Lemma src_len_zero o : (src_len o =? 0) = true -> o = None \/ o = Some [].
+Proof. destruct o as [b|]; [|auto]. cbn. intro H. right. f_equal. apply zlen_0_nil. lia. Qed.
+
+Lemma m_decode_null_inv v t o : m_decode v t o = OK VNull -> match t with TScalar _ => True | _ => (src_len o =? 0) = true end.
+Proof.
+  intro H. destruct t; [trivial| | | | |].
+  - cbn [m_decode] in H. destruct (src_len o =? 0); [reflexivity|exfalso]. invb H. destruct a as [size rest]. destruct (size <? 0); [discriminate|]. invb H. invb H. discriminate.
+  - cbn [m_decode] in H. destruct (src_len o =? 0); [reflexivity|exfalso]. invb H. destruct a as [size rest]. destruct (size <? 0); [discriminate|]. invb H. invb H. discriminate.
+  - cbn [m_decode] in H. destruct (src_len o =? 0); [reflexivity|exfalso]. invb H. destruct a as [size rest]. destruct (size <? 0); [discriminate|]. invb H. invb H. discriminate.
+  - rewrite m_decode_tuple in H. destruct (src_len o =? 0); [reflexivity|exfalso]. invb H. invb H. discriminate.
+  - rewrite m_decode_udt in H. destruct (src_len o =? 0); [reflexivity|exfalso]. invb H. invb H. discriminate.
+Qed.
+
+Lemma accepts_imp_dest t gt : accepts t gt = true -> accepts_dest t gt = true.
+Proof. destruct gt; cbn; auto. Qed.
+Lemma gabs_none t : gabs t None = Some VNull.
+Proof. destruct t; reflexivity. Qed.
+Lemma elem_src_accepts e t' g : accepts e t' = true -> elem_src t' g = Some (t', g).
+Proof. destruct t'; try reflexivity. destruct e; discriminate. Qed.
+
+Lemma gabs_nilptr e t' : accepts e t' = true -> gabs e (Some (GPtr t', GVNilPtr)) = Some VNull.
+Proof. intro H. destruct e; destruct t'; try discriminate H; try reflexivity. cbn in H |- *. rewrite H. reflexivity. Qed.
+
+Lemma gabs_ptr e t' g' : accepts e t' = true -> gabs e (Some (GPtr t', GVPtr g')) = gabs e (Some (t', g')).
+Proof.
+  intro H. destruct e.
+  - destruct t'; try discriminate H. destruct g'; reflexivity.
+  - rewrite !gabs_list. destruct t'; try discriminate H; destruct g'; reflexivity.
+  - rewrite !gabs_set. destruct t'; try discriminate H; destruct g'; reflexivity.
+  - rewrite !gabs_map. destruct t'; try discriminate H; destruct g'; reflexivity.
+  - rewrite !gabs_tuple. destruct t'; try discriminate H; destruct g'; reflexivity.
+  - rewrite !gabs_udt. destruct t'; try discriminate H; destruct g'; reflexivity.
+Qed.
+
+Lemma gabs_zero_nilable e et : nilable et = true -> accepts_dest e et = true -> gabs e (elem_src et (gzero et)) = Some VNull.
+Proof.
+  intros Hn Ha. destruct et; try discriminate Hn.
+  - destruct k; [discriminate|]. destruct e; try discriminate Ha. cbn in Ha |- *. rewrite Ha. reflexivity.
+  - destruct e; try discriminate Ha; reflexivity.
+  - destruct e; try discriminate Ha; reflexivity.
+  - cbn. apply gabs_none.
+Qed.
+
+Definition DD (v : Z) (t : cqltype) : Prop :=
+  (forall gt d o, m_decode v t o = OK VNull -> accepts_dest t gt = true -> dec_var v t gt d o = OK (true, gzero gt)) /\
+  (forall gt o x, m_decode v t o = OK x -> isnull x = false -> fits t gt x ->
+     exists g', dec_var v t gt (gzero gt) o = OK (false, g') /\ gabs t (elem_src gt g') = Some x).
+
+(* one element / field through zeroElem - Decode - setElem *)
+Lemma elem_fit v e et o x : DD v e -> m_decode v e o = OK x -> fits_el e (fits e) et x ->
+  exists y, dec_elem_with (dec_var v e) et o = OK y /\ gabs e (elem_src et y) = Some x.
+Proof.
+  intros (Dn & Dv) Hm Hf. unfold fits_el in Hf.
+  assert (Hcase: forall t', et = GPtr t' \/ (forall t'', et <> GPtr t'') -> True) by trivial.
+  destruct (isnull x) eqn:Hx.
+  - destruct x; try discriminate Hx.
+    destruct et as [s k|t'|t'|n t'|kt vt|sfs|].
+    2:{ exists GVNilPtr. cbn [dec_elem_with]. rewrite (Dn t' (gzero t') o Hm (accepts_imp_dest _ _ Hf)). cbn. split; [reflexivity|apply gabs_nilptr; exact Hf]. }
+    all: destruct Hf as (Hn & Ha); eexists; cbn [dec_elem_with]; rewrite (Dn _ _ o Hm Ha); cbn [bindo fst snd]; split; [reflexivity|apply gabs_zero_nilable; assumption].
+  - destruct et as [s k|t'|t'|n t'|kt vt|sfs|].
+    2:{ destruct Hf as (Ha & Hf). destruct (Dv t' o x Hm Hx Hf) as (g' & Hd & Hg). exists (GVPtr g'). cbn [dec_elem_with]. rewrite Hd. cbn. split; [reflexivity|].
+        rewrite (gabs_ptr e t' g' Ha). rewrite (elem_src_accepts e t' g' Ha) in Hg. exact Hg. }
+    all: destruct (Dv _ o x Hm Hx Hf) as (g' & Hd & Hg); exists g'; cbn [dec_elem_with]; rewrite Hd; cbn [bindo fst snd]; split; [reflexivity|exact Hg].
+Qed.
+
+Lemma omap_snoc_some {A B} (f : A -> option B) a l b r : f a = Some b -> omap f l = Some r -> omap f (a :: l) = Some (b :: r).
+Proof. intros Ha Hl. cbn. rewrite Ha. fold (omap f l). rewrite Hl. reflexivity. Qed.
+
+Lemma dec_elems_fit v e et : DD v e -> forall fuel n src xs rest,
+  dec_elems v (m_decode v e) fuel n src = OK (xs, rest) -> Forall (fits_el e (fits e) et) xs ->
+  exists ys, dec_elems_g v (dec_elem_with (dec_var v e) et) fuel n src = OK (ys, rest) /\
+             omap (fun g => gabs e (elem_src et g)) ys = Some xs /\ List.length ys = List.length xs /\ (0 <= n -> zlen xs = n).
+Proof.
+  intros HD fuel. induction fuel as [|f IH]; intros n src xs rest H HF.
+  - cbn [dec_elems] in H. destruct (Z.leb_spec n 0); [|discriminate]. apply ok_inj in H. injection H as <- <-.
+    exists []. cbn [dec_elems_g]. replace (n <=? 0) with true by lia. repeat split; try reflexivity. cbn. lia.
+  - cbn [dec_elems] in H. cbn [dec_elems_g]. destruct (Z.leb_spec n 0).
+    + apply ok_inj in H. injection H as <- <-. exists []. repeat split; try reflexivity. cbn. lia.
+    + invb H. invb H. invb H. apply ok_inj in H. injection H as <- <-. destruct a1 as [xs' rest']. cbn [fst snd] in *.
+      inversion HF as [|? ? Hx HF']; subst.
+      destruct (elem_fit v e et (fst a) a0 HD Ha0 Hx) as (y & Hy & Gy).
+      destruct (IH (n - 1) (snd a) xs' rest' Ha1 HF') as (ys & Hys & Gys & Hl & Hc).
+      exists (y :: ys). rewrite Ha. cbn [bindo]. rewrite Hy. cbn [bindo]. rewrite Hys. cbn [bindo fst snd].
+      repeat split; [apply omap_snoc_some; assumption|cbn; lia|intros _; rewrite zlen_cons; lia].
+Qed.
+
+Definition fits_fields := fix go (fs : list cqltype) (ets : list gty) (xs : list cval) {struct fs} : Prop :=
+  match fs, ets, xs with
+  | [], _, [] => True
+  | f :: fs', et :: ets', x :: xs' => fits_el f (fits f) et x /\ go fs' ets' xs'
+  | _, _, _ => False
+  end.
+
+Lemma dec_fields_fit v (udt : bool) fs : Forall (DD v) fs -> forall ets src xs rest,
+  (if udt then dec_fields_udt (m_decode v) fs src else dec_fields (m_decode v) fs src) = OK (xs, rest) -> fits_fields fs ets xs ->
+  exists ys, dec_fields_g v udt fs ets src = OK (ys, rest) /\ List.length ys = List.length fs /\
+             forall tl, exists ss, positional (List.length fs) ets (ys ++ tl) = Some ss /\ gabs_fields fs ss = Some xs.
+Proof.
+  intro HF. induction HF as [|f fs' Hf Hfs IH]; intros ets src xs rest H Hfit.
+  - assert (E: OK (@nil cval, src) = OK (xs, rest)) by (destruct udt; exact H). apply ok_inj in E. injection E as <- <-.
+    exists []. cbn. repeat split. intro tl. exists []. split; reflexivity.
+  - destruct ets as [|et ets']; [destruct xs; contradiction|]. destruct xs as [|x xs']; [contradiction|]. destruct Hfit as (Hx & Hrest).
+    cbn [dec_fields_g].
+    assert (Hinv: exists e y r, (match udt, src with true, [] => OK (None, []) | _, _ => read_bytes src end) = OK e /\ m_decode v f (fst e) = OK y /\
+                   (if udt then dec_fields_udt (m_decode v) fs' (snd e) else dec_fields (m_decode v) fs' (snd e)) = OK r /\ (x :: xs', rest) = (y :: fst r, snd r)).
+    { destruct udt; cbn [dec_fields dec_fields_udt] in H; invb H; invb H; invb H; apply ok_inj in H; exists a, a0, a1; repeat split; try assumption; try (symmetry; exact H); try exact Ha; try (destruct src; exact Ha). }
+    destruct Hinv as (e & y & r & He & Hy & Hr & Heq). injection Heq as -> -> ->. destruct r as [xs'' rest'']. cbn [fst snd] in *.
+    destruct (elem_fit v f et (fst e) y Hf Hy Hx) as (gy & Hgy & Ggy).
+    destruct (IH ets' (snd e) xs'' rest'' Hr Hrest) as (ys & Hys & Hl & Hpos).
+    exists (gy :: ys). rewrite He. cbn [bindo]. rewrite Hgy. cbn [bindo]. rewrite Hys. cbn [bindo fst snd].
+    repeat split; [cbn; lia|]. intro tl. destruct (Hpos tl) as (ss & Hss & Gss).
+    exists (elem_src et gy :: ss). cbn [List.length positional app]. rewrite Hss. split; [reflexivity|].
+    cbn [gabs_fields]. rewrite Ggy, Gss. reflexivity.
+Qed.
+
+Lemma dn_container v t : (match t with TScalar _ => False | _ => True end) ->
+  forall gt d o, m_decode v t o = OK VNull -> accepts_dest t gt = true -> dec_var v t gt d o = OK (true, gzero gt).
+Proof.
+  intros Ht gt d o H Ha. pose proof (m_decode_null_inv v t o H) as Hz.
+  assert (Hs: string_type t = false) by (destruct t; try reflexivity; contradiction).
+  destruct t; try contradiction; destruct (src_len_zero o Hz) as [->| ->];
+    first [exact (null_into_prefilled v _ gt d Ha) | exact (empty_into_prefilled v _ gt d Ha Hs)].
+Qed.
+
+Lemma all_read_inv {A} (r : A * bytes) (x : A) : all_read r = OK x -> fst r = x /\ (zlen (snd r) =? 0) = true.
+Proof. unfold all_read. destruct (zlen (snd r) =? 0); [|discriminate]. intro H. apply ok_inj in H. auto. Qed.
+
+Lemma skipn_repeat_all {A} (z : A) n k : (n <= k)%nat -> skipn k (repeat z n) = [].
+Proof. intro H. apply skipn_all2. rewrite repeat_length. exact H. Qed.
+
+Lemma dd_list v e : DD v e -> DD v (TList e).
+Proof.
+  intro IH. split; [apply dn_container; exact I|].
+  intros gt o x H Hx Hf. destruct x; try (cbn in Hf; contradiction).
+  cbn [m_decode] in H. destruct (src_len o =? 0) eqn:E; [discriminate|].
+  invb H. destruct a as [size rest]. destruct (size <? 0) eqn:Es; [discriminate|]. invb H. invb H. apply ok_inj in H. injection H as ->.
+  destruct a as [xs0 rest0]. apply all_read_inv in Ha1. cbn [fst snd] in Ha1. destruct Ha1 as (-> & Er).
+  rewrite dec_var_list. cbv zeta. rewrite E.
+  destruct gt; try (cbn in Hf; contradiction).
+  - (* slice *) cbn [fits] in Hf.
+    destruct (dec_elems_fit v e gt IH _ _ _ _ _ Ha0 Hf) as (ys & Hys & Gys & Hl & Hc).
+    unfold seq_body. rewrite Ha. cbn [bindo]. rewrite Es, Hys. cbn [bindo]. unfold all_read. cbn [fst snd]. rewrite Er. cbn [bindo fst snd].
+    eexists. split; [reflexivity|]. cbn [elem_src]. rewrite gabs_list. change (as_seq (Some (GSlice gt, GVSlice ys))) with (XOk (gt, ys)). cbv iota beta. rewrite Gys. reflexivity.
+  - (* array *) cbn [fits] in Hf. destruct Hf as (Hn & Hf).
+    destruct (dec_elems_fit v e gt IH _ _ _ _ _ Ha0 Hf) as (ys & Hys & Gys & Hl & Hc).
+    unfold seq_body. rewrite Ha. cbn [bindo]. rewrite Es, Hys. cbn [bindo]. unfold all_read. cbn [fst snd]. rewrite Er. cbn [bindo fst snd].
+    assert (Hsz: zlen es = size) by (apply Hc; lia). unfold zlen in Hsz.
+    replace (Z.of_nat n <? size) with false by lia.
+    eexists. split; [reflexivity|]. cbn [gzero arr_elems]. rewrite skipn_repeat_all by lia. rewrite app_nil_r.
+    cbn [elem_src]. rewrite gabs_list. change (as_seq (Some (GArray n gt, GVArray ys))) with (XOk (gt, ys)). cbv iota beta. rewrite Gys. reflexivity.
+  - (* untyped *) cbn [fits] in Hf.
+    destruct (dec_elems_fit v e _ IH _ _ _ _ _ Ha0 Hf) as (ys & Hys & Gys & Hl & Hc).
+    unfold seq_body. rewrite Ha. cbn [bindo]. rewrite Es, Hys. cbn [bindo]. unfold all_read. cbn [fst snd]. rewrite Er. cbn [bindo fst snd].
+    eexists. split; [reflexivity|]. cbn [elem_src]. rewrite gabs_list.
+    change (as_seq (Some (GSlice (ensure_nillable (pref e)), GVSlice ys))) with (XOk (ensure_nillable (pref e), ys)). cbv iota beta. rewrite Gys. reflexivity.
+Qed.
+
+Lemma dd_set v e : DD v (TList e) -> DD v (TSet e).
+Proof.
+  intros (Dn & Dv). split.
+  - intros gt d o H Ha. rewrite dec_var_set. apply Dn; [exact H|destruct gt; exact Ha].
+  - intros gt o x H Hx Hf. destruct (Dv gt o x H Hx Hf) as (g' & Hd & Hg). exists g'. split; [rewrite dec_var_set; exact Hd|rewrite gabs_set, <- gabs_list; exact Hg].
+Qed.
+
+Lemma fits_tuple fs gt xs : fits (TTuple fs) gt (VTuple xs) =
+  match gt with
+  | GStruct sfs => fits_fields fs (field_types sfs) xs
+  | GSlice et => fits_fields fs (repeat et (List.length fs)) xs
+  | GArray m et => (List.length fs <= m)%nat /\ fits_fields fs (repeat et m) xs
+  | GIface => fits_fields fs (repeat GIface (List.length fs)) xs
+  | _ => False
+  end.
+Proof. destruct gt; reflexivity. Qed.
+Lemma fits_udt names fs gt xs : fits (TUdt names fs) gt (VUdt xs) =
+  match gt with
+  | GSlice et => fits_fields fs (repeat et (List.length fs)) xs
+  | GArray m et => (List.length fs <= m)%nat /\ fits_fields fs (repeat et m) xs
+  | _ => False
+  end.
+Proof. destruct gt; reflexivity. Qed.
+
+Lemma dd_tuple v fs : Forall (DD v) fs -> DD v (TTuple fs).
+Proof.
+  intro IH. split; [apply dn_container; exact I|].
+  intros gt o x H Hx Hf. destruct x; try (cbn in Hf; contradiction). rename es into xs.
+  rewrite fits_tuple in Hf. rewrite m_decode_tuple in H. destruct (src_len o =? 0) eqn:E; [discriminate|].
+  invb H. invb H. apply ok_inj in H. injection H as ->. destruct a as [xs0 rest0]. apply all_read_inv in Ha0. cbn [fst snd] in Ha0. destruct Ha0 as (-> & Er).
+  rewrite dec_var_tuple. cbv zeta. rewrite E.
+  destruct gt; try contradiction.
+  - (* slice *)
+    destruct (dec_fields_fit v false fs IH _ _ _ _ Ha Hf) as (ys & Hys & Hl & Hpos).
+    unfold g_fields. rewrite Hys. cbn [bindo]. unfold all_read. cbn [fst snd]. rewrite Er. cbn [bindo].
+    eexists. split; [reflexivity|]. cbn [elem_src]. rewrite gabs_tuple.
+    change (as_tuple (List.length fs) (Some (GSlice gt, GVSlice ys))) with (XOk (positional (List.length fs) (repeat gt (List.length ys)) ys)).
+    destruct (Hpos []) as (ss & Hss & Gss). rewrite app_nil_r in Hss. rewrite Hl, Hss. cbn. rewrite Gss. reflexivity.
+  - (* array *)
+    destruct Hf as (Hm & Hf).
+    destruct (dec_fields_fit v false fs IH _ _ _ _ Ha Hf) as (ys & Hys & Hl & Hpos).
+    unfold g_fields. rewrite Hys. cbn [bindo]. unfold all_read. cbn [fst snd]. rewrite Er. cbn [bindo].
+    eexists. split; [reflexivity|]. cbn [elem_src gzero arr_elems]. rewrite gabs_tuple.
+    set (tl := skipn (List.length fs) (repeat (gzero gt) n)).
+    change (as_tuple (List.length fs) (Some (GArray n gt, GVArray (ys ++ tl)))) with (XOk (positional (List.length fs) (repeat gt (List.length (ys ++ tl))) (ys ++ tl))).
+    assert (Hlen: List.length (ys ++ tl) = n) by (unfold tl; rewrite app_length, skipn_length, repeat_length; lia).
+    destruct (Hpos tl) as (ss & Hss & Gss). rewrite Hlen, Hss. cbn. rewrite Gss. reflexivity.
+  - (* struct *)
+    destruct (dec_fields_fit v false fs IH _ _ _ _ Ha Hf) as (ys & Hys & Hl & Hpos).
+    unfold g_fields. rewrite Hys. cbn [bindo]. unfold all_read. cbn [fst snd]. rewrite Er. cbn [bindo].
+    eexists. split; [reflexivity|]. cbn [elem_src]. rewrite gabs_tuple.
+    set (tl := skipn (List.length fs) (arr_elems (gzero (GStruct fs0)))).
+    change (as_tuple (List.length fs) (Some (GStruct fs0, GVStruct (ys ++ tl)))) with (XOk (positional (List.length fs) (field_types fs0) (ys ++ tl))).
+    destruct (Hpos tl) as (ss & Hss & Gss). rewrite Hss. cbn. rewrite Gss. reflexivity.
+  - (* untyped *)
+    destruct (dec_fields_fit v false fs IH _ _ _ _ Ha Hf) as (ys & Hys & Hl & Hpos).
+    unfold g_fields. rewrite Hys. cbn [bindo]. unfold all_read. cbn [fst snd]. rewrite Er. cbn [bindo].
+    eexists. split; [reflexivity|]. cbn [elem_src]. rewrite gabs_tuple.
+    change (as_tuple (List.length fs) (Some (GSlice GIface, GVSlice ys))) with (XOk (positional (List.length fs) (repeat GIface (List.length ys)) ys)).
+    destruct (Hpos []) as (ss & Hss & Gss). rewrite app_nil_r in Hss. rewrite Hl, Hss. cbn. rewrite Gss. reflexivity.
+Qed.
+
+Lemma dd_udt v names fs : Forall (DD v) fs -> DD v (TUdt names fs).
+Proof.
+  intro IH. split; [apply dn_container; exact I|].
+  intros gt o x H Hx Hf. destruct x; try (cbn in Hf; contradiction). rename es into xs.
+  rewrite fits_udt in Hf. rewrite m_decode_udt in H. destruct (src_len o =? 0) eqn:E; [discriminate|].
+  invb H. invb H. apply ok_inj in H. injection H as ->. destruct a as [xs0 rest0]. apply all_read_inv in Ha0. cbn [fst snd] in Ha0. destruct Ha0 as (-> & Er).
+  rewrite dec_var_udt_seq. cbv zeta. rewrite E.
+  destruct gt; try contradiction.
+  - destruct (dec_fields_fit v true fs IH _ _ _ _ Ha Hf) as (ys & Hys & Hl & Hpos).
+    unfold g_fields. rewrite Hys. cbn [bindo]. unfold all_read. cbn [fst snd]. rewrite Er. cbn [bindo].
+    eexists. split; [reflexivity|]. cbn [elem_src]. rewrite gabs_udt.
+    change (as_udt names (List.length fs) (Some (GSlice gt, GVSlice ys))) with (XOk (positional (List.length fs) (repeat gt (List.length ys)) ys)).
+    destruct (Hpos []) as (ss & Hss & Gss). rewrite app_nil_r in Hss. rewrite Hl, Hss. cbn. rewrite Gss. reflexivity.
+  - destruct Hf as (Hm & Hf).
+    destruct (dec_fields_fit v true fs IH _ _ _ _ Ha Hf) as (ys & Hys & Hl & Hpos).
+    unfold g_fields. rewrite Hys. cbn [bindo]. unfold all_read. cbn [fst snd]. rewrite Er. cbn [bindo].
+    eexists. split; [reflexivity|]. cbn [elem_src gzero arr_elems]. rewrite gabs_udt.
+    set (tl := skipn (List.length fs) (repeat (gzero gt) n)).
+    change (as_udt names (List.length fs) (Some (GArray n gt, GVArray (ys ++ tl)))) with (XOk (positional (List.length fs) (repeat gt (List.length (ys ++ tl))) (ys ++ tl))).
+    assert (Hlen: List.length (ys ++ tl) = n) by (unfold tl; rewrite app_length, skipn_length, repeat_length; lia).
+    destruct (Hpos tl) as (ss & Hss & Gss). rewrite Hlen, Hss. cbn. rewrite Gss. reflexivity.
+Qed.
+
+Lemma dd_scalar v s : DD v (TScalar s).
+Proof.
+  split.
+  - intros gt d o H Ha. change (dec_var v (TScalar s) gt d o) with (leaf_decode s gt o). cbn [m_decode] in H.
+    destruct gt; try discriminate Ha; unfold leaf_decode.
+    + cbn in Ha. rewrite Ha, H. reflexivity.
+    + rewrite H. reflexivity.
+  - intros gt o x H Hx (Hshape & Hgt). change (dec_var v (TScalar s) gt (gzero gt) o) with (leaf_decode s gt o). cbn [m_decode] in H.
+    destruct gt; try contradiction; unfold leaf_decode.
+    + rewrite Hgt, H. cbn [bindo]. destruct x; try discriminate Hx; try contradiction; (eexists; split; [reflexivity|cbn; rewrite Hgt; reflexivity]).
+    + rewrite H. cbn [bindo]. destruct x; try discriminate Hx; try contradiction;
+        (eexists; split; [reflexivity|destruct s; cbn; reflexivity]).
+Qed.
+
+Lemma dd_map v k w : DD v (TMap k w).
+Proof. split; [apply dn_container; exact I|]. intros gt o x H Hx Hf. cbn in Hf. contradiction. Qed.
+
+(* Decode into a representation: by induction on the type tree *)
+Theorem decode_fits v t : DD v t.
+Proof.
+  induction t using cqltype_ind2.
+  - apply dd_scalar.
+  - apply dd_list. exact IHt.
+  - apply dd_set. apply dd_list. exact IHt.
+  - apply dd_map.
+  - apply dd_tuple. exact H.
+  - apply dd_udt. exact H.
+Qed.
+
+(* C11 at the representation level: encode from ANY modelled representation, decode into any destination type that can hold the value *)
+Theorem representations_round_trip v t gt g x o gt' :
+  wf_type t = true -> gabs t (Some (gt, g)) = Some x -> wt t x = true -> isnull x = false ->
+  g_encode v t (Some (gt, g)) = OK o -> olen o < 2 ^ 31 -> fits t gt' x ->
+  exists g', g_decode v t gt' (gzero gt') o = OK (false, g') /\ gabs t (elem_src gt' g') = Some x.
+Proof.
+  intros Hwf Ha Hwt Hx He Hs Hf. rewrite (g_encode_abs v t _ x Ha) in He.
+  pose proof (round_trip v t Hwf x o Hwt He Hs) as Hd.
+  exact (proj2 (decode_fits v t) gt' o x Hd Hx Hf).
+Qed.
+
+(* a NULL decoded through any representation-level destination is reported as NULL and leaves the zero value *)
+Theorem representations_null v t gt g o gt' d :
+  gabs t (Some (gt, g)) = Some VNull -> g_encode v t (Some (gt, g)) = OK o -> accepts_dest t gt' = true ->
+  g_decode v t gt' d o = OK (true, gzero gt').
+Proof.
+  intros Ha He Hacc. rewrite (g_encode_abs v t _ VNull Ha), m_encode_null in He. apply ok_inj in He. subst o.
+  apply null_into_prefilled. exact Hacc.
+Qed.
